@@ -1100,6 +1100,7 @@ package sftp
 //@   requires r != nil && pkt != nil && handlersOK(handlers) && attrsOK(pkt) && (alloc == nil || alloc.used != nil) && rsReqType(pkt)
 //@   requires MaxFilelist >= 1 && MaxFilelist <= 1000000
 //@   ensures result != nil && result.id() == pkt.id()
+//@   ensures typeis(result, *sshFxpStatusPacket) || typeis(result, *sshFxpDataPacket) || typeis(result, *sshFxpNamePacket) || typeis(result, *sshFxpStatResponse) || typeis(result, *StatVFS)
 
 //@ func (*Request).open
 //@   property C07, C02, C10
